@@ -2,7 +2,7 @@
    Model: PL.Rainflow.Model (tied to the code by correspondence); specifications: PL.Rainflow.Spec.
    Only statements, `exact`, Print Assumptions. *)
 From Coq Require Import ZArith List Bool Permutation.
-From PL Require Import Rainflow.Model Rainflow.Eqb Rainflow.FP Rainflow.Spec Rainflow.SpecThm Rainflow.IndexThm Rainflow.HcmThm Rainflow.Bounded34.
+From PL Require Import Rainflow.Model Rainflow.Eqb Rainflow.FP Rainflow.Spec Rainflow.SpecThm Rainflow.IndexThm Rainflow.HcmThm Rainflow.Bounded34 Rainflow.Index3.
 Import ListNotations.
 Open Scope Z_scope.
 
@@ -38,6 +38,14 @@ Theorem index_addresses_value_4pt s : s <> [] ->
   Forall2 (fun i v => nth_error s i = Some v) ri r.
 Proof. exact (IndexThm.index_addresses_value_4pt s). Qed.
 
+(* the same for the three-point detector (position-level invariants of the Cython loop) -- unbounded *)
+Theorem index_addresses_value_3pt s : s <> [] ->
+  let '(c, r, ri, _) := run3 [s] in
+  Forall (fun q => nth_error s (snd (fst q)) = Some (fst (fst (fst q))) /\
+                   nth_error s (snd q) = Some (snd (fst (fst q)))) c /\
+  Forall2 (fun i v => nth_error s i = Some v) ri r.
+Proof. exact (Index3.index_addresses_value_3pt s). Qed.
+
 (* turning points are reported with the index of a sample holding that value (plateau: its first sample) *)
 Theorem find_turns_addresses s : Forall (fun iv => nth_error s (fst iv) = Some (snd iv)) (find_turns s).
 Proof. exact (SpecThm.find_turns_addresses s). Qed.
@@ -64,6 +72,7 @@ Print Assumptions fkm_is_hcm.
 Print Assumptions conservation_4pt.
 Print Assumptions conservation_fkm.
 Print Assumptions index_addresses_value_4pt.
+Print Assumptions index_addresses_value_3pt.
 Print Assumptions find_turns_addresses.
 Print Assumptions fourpoint_residual_irreducible.
 Print Assumptions threepoint_same_as_fourpoint_bounded.
